@@ -332,21 +332,21 @@ theorem simplify_coalesce_head_sound (fl : Flags) (first rest : E) (env : Env) :
 
 /-- the comparison branch of simplify_coalesce (operand order as repaired by daebc58):
     `COALESCE(x, …, c, …) op k  →  ((NOT this IS NULL AND COALESCE(x, …) op k) OR (this IS NULL AND c op k))`
-    is exact when the first constant argument `c` is not NULL-valued -/
+    is exact (the argument that ends the COALESCE is a constant other than the NULL literal, e0979fa) -/
 theorem simplify_coalesce_cmp_sound (op : Cmp) (left : Bool) (first rest other x : E)
-    (h : coalesceRewrite (some op) left first rest other = some x) (env : Env)
-    (hc : ∀ pre c, splitAtConst rest = some (pre, c) → eval env c ≠ .null) :
+    (h : coalesceRewrite true (some op) left first rest other = some x) (env : Env) :
     eval env x = eval env (if left then .cmp op (.coalesce (.cons first rest)) other
                            else .cmp op other (.coalesce (.cons first rest))) := by
   unfold coalesceRewrite at h
   split at h; · cases h
-  cases hs : splitAtConst rest with
+  cases hs : splitAtConst true rest with
   | none => simp [hs] at h
   | some pc =>
     obtain ⟨pre, c⟩ := pc
     simp only [hs] at h
     cases h
-    have hsplit := evalCoalesce_split env rest pre c hs (hc pre c hs) first
+    have hsplit := evalCoalesce_split env true rest pre c hs
+      (endsCoalesce_ne_null env c (splitAtConst_ends true rest pre c hs)) first
     have hthis : eval env (if pre = .nil then first else .coalesce (.cons first pre)) = evalCoalesce env (.cons first pre) := by
       split
       · rename_i hp; subst hp; simp only [evalCoalesce]; cases eval env first <;> rfl
@@ -364,16 +364,20 @@ theorem simplify_coalesce_cmp_sound (op : Cmp) (left : Bool) (first rest other x
                   | none => rfl
                   | some b => cases b <;> rfl))
 
-example : coalesceRewrite (some .lt) false (.icol 0 false) (.cons (.int 1) .nil) (.int 2)
+example : coalesceRewrite true (some .lt) false (.icol 0 false) (.cons (.int 1) .nil) (.int 2)
     = some (.paren (mkOr (mkAnd (.not (.is (.icol 0 false) .null)) (.cmp .lt (.int 2) (.coalesce (.cons (.icol 0 false) .nil))))
                          (mkAnd (.is (.icol 0 false) .null) (.cmp .lt (.int 2) (.int 1))))) := by decide
 
-/-- KNOWN FINDING (clean tree): the "first constant argument" may be the NULL literal, and then the arguments after it
-    are lost: `COALESCE(x, NULL, y) = 1` becomes `(NOT x IS NULL AND x = 1) OR (x IS NULL AND NULL = 1)` -/
-theorem simplify_coalesce_null_constant_counterexample :
-    ∃ e env, eval env (simplifyCoalesce ⟨false, false⟩ e) ≠ eval env e :=
-  ⟨.cmp .eq (.coalesce (.cons (.icol 0 false) (.cons .null (.cons (.icol 1 false) .nil)))) (.int 1),
-   ⟨fun _ => none, fun k => if k = 1 then some 1 else none⟩, by decide⟩
+/-- why the NULL literal must not end the COALESCE: the earlier rule (`skipNull = false`, before e0979fa) loses the
+    arguments after it — `COALESCE(x, NULL, y) = 1` became `(NOT x IS NULL AND x = 1) OR (x IS NULL AND NULL = 1)` -/
+theorem simplify_coalesce_needs_nonnull_constant :
+    ∃ first rest other x env, coalesceRewrite false (some .eq) true first rest other = some x ∧
+      eval env x ≠ eval env (.cmp .eq (.coalesce (.cons first rest)) other) :=
+  ⟨.icol 0 false, .cons .null (.cons (.icol 1 false) .nil), .int 1, _,
+   ⟨fun _ => none, fun k => if k = 1 then some 1 else none⟩, rfl, by decide⟩
+
+example : simplifyCoalesce ⟨false, false⟩ (.cmp .eq (.coalesce (.cons (.icol 0 false) (.cons .null (.cons (.icol 1 false) .nil)))) (.int 1))
+    = .cmp .eq (.coalesce (.cons (.icol 0 false) (.cons .null (.cons (.icol 1 false) .nil)))) (.int 1) := by decide
 
 /-- the step checker is sound: an accepted step has the same 3-valued truth value under every assignment … -/
 theorem checkStep_sound (c : Cmp → Cmp) (hc : InverseOK c) (r : Rule) (a b : E) (h : checkStep c r a b = true)
@@ -418,6 +422,46 @@ theorem nonnull_needed_absorb :
     ∃ env, eval env (.and (.bcol 0 false) (.paren (.or (.not (.bcol 0 false)) (.bcol 1 false))))
       ≠ eval env (.and (.bcol 0 false) (.bcol 1 false)) :=
   ⟨⟨fun k => if k = 0 then none else some false, fun _ => none⟩, by decide⟩
+
+theorem and3_some_some (a b : Bool) : and3 (some a) (some b) = some (a && b) := by cases a <;> cases b <;> rfl
+theorem or3_some_some (a b : Bool) : or3 (some a) (some b) = some (a || b) := by cases a <;> cases b <;> rfl
+
+/-- the range rules of `_simplify_comparison` on two upper bounds (LT/LTE) or two lower bounds (GT/GTE) of the same
+    term `c` (as repaired by a8389e4: on equal constants AND keeps the strict bound, OR the inclusive one) are exact in
+    3-valued logic — for every value of `c` including NULL, for both operand orders, for AND and OR -/
+theorem simplify_comparison_bounds_sound (or_ : Bool) (opl opr : Cmp) (c l r x : E) (lv rv : Int)
+    (hl : numVal? l = some lv) (hr : numVal? r = some rv)
+    (hops : ((isLtLte (some opl) && isLtLte (some opr)) || (isGtGte (some opl) && isGtGte (some opr))) = true)
+    (h : cmpDecide true or_ (.cmp opl c l) (.cmp opr c r) (some opl) lv (some opr) rv = .res x) (env : Env) :
+    eval env x = eval env (if or_ then .or (.cmp opl c l) (.cmp opr c r) else .and (.cmp opl c l) (.cmp opr c r)) := by
+  have el := numVal_eval env l lv hl
+  have er := numVal_eval env r rv hr
+  cases hv : toInt? (eval env c) with
+  | none =>
+    have hx : x = .cmp opl c l ∨ x = .cmp opr c r := by
+      cases opl <;> cases opr <;> simp [isLtLte, isGtGte] at hops <;> cases or_ <;>
+        simp [cmpDecide, cmpStep, isLtLte, isGtGte] at h <;>
+        (repeat' split at h) <;> simp_all
+    rcases hx with hx | hx <;> subst hx <;> cases or_ <;> simp [eval, cmpVal, hv, truth, and3, or3, ofB3]
+  | some k =>
+    have cl : ∀ op n, cmpVal op (eval env c) (.i n) = .b (op.test k n) := by
+      intro op n; unfold cmpVal; rw [hv]; rfl
+    cases opl <;> cases opr <;> simp [isLtLte, isGtGte] at hops <;> cases or_ <;>
+      simp [cmpDecide, cmpStep, isLtLte, isGtGte] at h <;> subst h <;>
+      (repeat' split) <;> (try contradiction) <;>
+      simp only [eval, el, er, cl, truth, and3_some_some, or3_some_some, ofB3, Cmp.test, Val.b.injEq] <;>
+      (try rw [Bool.eq_iff_iff]) <;>
+      (try simp only [Bool.and_eq_true, Bool.or_eq_true, decide_eq_true_eq]) <;> omega
+
+example : cmpDecide true false (.cmp .lte (.icol 0 false) (.int 1)) (.cmp .lt (.icol 0 false) (.int 1)) (some .lte) 1 (some .lt) 1
+    = .res (.cmp .lt (.icol 0 false) (.int 1)) := by decide
+
+/-- why the tie rule is needed: before a8389e4 (`tie = false`) the first operand won on equal constants, so
+    `x <= 1 AND x < 1` (which `NOT x > 1 AND x < 1` reaches unsorted) became `x <= 1`: TRUE at x = 1, the input is FALSE -/
+theorem simplify_comparison_tie_needed :
+    ∃ x env, cmpDecide false false (.cmp .lte (.icol 0 false) (.int 1)) (.cmp .lt (.icol 0 false) (.int 1)) (some .lte) 1 (some .lt) 1 = .res x ∧
+      eval env x ≠ eval env (.and (.cmp .lte (.icol 0 false) (.int 1)) (.cmp .lt (.icol 0 false) (.int 1))) :=
+  ⟨_, ⟨fun _ => none, fun _ => some 1⟩, rfl, by decide⟩
 
 /-- KNOWN FINDING (clean tree, pinned by the repo's fixtures): `_simplify_comparison` rewrites `x = 5 AND x < 3` to FALSE.
     For `x` NULL the input is NULL, not FALSE, and under NOT the difference reaches a WHERE filter. -/
